@@ -168,3 +168,12 @@ package replication
 //@   before (*worker).proposeBatch assert [C05.do.session] session == session0
 //@   modifies w.engine.NodeHost.lastRes, w.engine.NodeHost.lastErr, w.engine.NodeHost.lastCmd, w.engine.NodeHost.nelem, w.engine.NodeHost.nseq
 //@   loop 0 invariant stream != nil && w.workerFactory == old(w.workerFactory) && w.engine == old(w.engine) && w.engine.NodeHost == old(w.engine.NodeHost)
+
+// Close: the stop signal is given, the worker's routines (lease renewal and replication) are waited
+// for, and ONLY THEN is the lease handed back - a worker that still replicates never gives its lease away
+//@ func (*worker).Close
+//@   maypanic
+//@   requires w != nil && w.log != nil && w.engine != nil && w.engine.Manager != nil && w.engine.Manager.store != nil && !chanClosed(w.closer)
+//@   before sync.(*WaitGroup).Wait assert [C15.close.signal] chanClosed(w.closer)
+//@   before table.(*Manager).ReturnTable assert [C15.close.order+C05] w.wg.waited && name == w.table
+//@   modifies family(CH_closed), family(G_any_waited), w.engine.Manager.store.rHas, w.engine.Manager.store.rPair, w.engine.Manager.store.nwk, w.engine.Manager.store.wVal, w.engine.Manager.store.wVer, w.engine.Manager.store.wDel, w.engine.Manager.store.wPrevHas, w.engine.Manager.store.wPrev
